@@ -213,3 +213,45 @@ func harnessC20BusLevel() {
 	}
 	vCover("checked")
 }
+
+//verif:entry property=C20 tier=both bounds="one Async handler (optionally Sequential, optionally context-aware) and a publisher that cancels the publish context right after Publish returned; every interleaving within the preemption bound; handler start/complete pairs = invocations that really ran" cover="checked" preempt_quick=2 preempt_thorough=3 race=on
+func harnessC20AsyncCancelled() {
+	obs := &c20Obs{}
+	bus := New(WithObservability(obs))
+	var mu sync.Mutex
+	runs := 0
+	so := []SubscribeOption{Async()}
+	if vBool() {
+		so = append(so, Sequential())
+	}
+	body := func() {
+		mu.Lock()
+		runs++
+		mu.Unlock()
+	}
+	if vBool() {
+		SubscribeContext(bus, func(ctx context.Context, e evA) { body() }, so...)
+	} else {
+		Subscribe(bus, func(e evA) { body() }, so...)
+	}
+	ctx, cancel := context.WithCancel(context.Background())
+	PublishContext(bus, ctx, evA{N: 1})
+	cancel()
+	bus.Wait()
+	vJoinAll()
+	starts, completes := 0, 0
+	obs.mu.Lock()
+	for _, e := range obs.evs {
+		if e.kind == 3 {
+			starts++
+		}
+		if e.kind == 4 {
+			completes++
+		}
+	}
+	obs.mu.Unlock()
+	mu.Lock()
+	vAssert(starts == runs && completes == runs, "one-handler-start-and-complete-per-invocation")
+	mu.Unlock()
+	vCover("checked")
+}
